@@ -1,13 +1,16 @@
 /-
 C20 — the tie between the hand-written mirror of the argument dispatch (Model/ArgForms.lean) and the LIVE source:
-harness/translate_c20.py extracts the if / elif chains of `save_performance_midi`, `Performance.__init__` and
-`transpose`, and the members of the `ScoreLike` / `PerformanceLike` unions, into Gen/C20Tables.lean on every run;
+harness/translate_c20.py extracts the if / elif chains of `save_performance_midi`, `Performance.__init__`,
+`transpose`, `save_score_midi`, `save_musicxml`, `Score.__init__` and `ensure_notearray`, and the members of the `ScoreLike` / `PerformanceLike` unions, into Gen/C20Tables.lean on every run;
 Model/ArgFormsGen.lean interprets them.  The theorems say, for EVERY argument, that interpreting the regenerated
 table gives exactly the model function that the theorems of Props/C20Forms.lean are about.  Editing the source so that
 some form is bound differently (wrapped in a constructor, walked through the argument instead of the copy, a
 branch dropped) changes the table and these theorems no longer elaborate.
 -/
 import PartituraModel.Model.ArgFormsGen
+import PartituraModel.Proofs.C20Heap
+import PartituraModel.Props.C20Forms
+import PartituraModel.Props.C20Array
 
 namespace C20Gen
 open Model.ArgForms Model.ArgFormsGen
@@ -49,5 +52,132 @@ example :
 /-- … and a head that wraps in the constructor (C20-i) is a token the interpreter refuses -/
 example :
     interpPerf [("not Performance", "?"), ("after", "attr:performedparts")] (PerfArg.ppart default) = none := by decide
+
+
+-- ================================================================== score-like arguments
+
+/-- **`save_score_midi` as written** binds `parts` so that walking it with `iter_parts` visits exactly `midiParts a`,
+    for every ScoreLike form (a Score: the flat list of its parts; a Part / PartGroup: itself; a list / tuple: itself) -/
+theorem score_midi_dispatch_generated (a : ScoreArg) :
+    (interpScore Gen.C20.scoreMidiDispatch a).map (Option.map iterNodes) = some (some (midiParts a)) := by
+  cases a with
+  | score ps st => rfl
+  | node n => cases n <;> rfl
+  | seq b xs => cases b <;> rfl
+
+/-- … and after the dispatch `parts` is only ever handed to `iter_parts` (directly, or inside `get_ppq`): the exporter
+    never indexes, sorts or rebinds it, and never touches the argument itself again -/
+theorem score_midi_uses_generated :
+    (∀ u ∈ Gen.C20.scoreMidiUses, u = "iter_parts" ∨ u = "get_ppq") ∧ (∀ u ∈ Gen.C20.getPpqUses, u = "iter_parts") := by
+  decide
+
+/-- **`save_musicxml` as written**: anything that is not a Score goes through `Score(partlist=·)`, a Score is used as
+    it is; afterwards the (re)bound score is only iterated (the container protocol of Props/C20.lean: its flat list) -/
+theorem xml_head_generated (a : ScoreArg) :
+    interpXml Gen.C20.xmlHead a = some (xmlScore a) ∧
+    (∀ u ∈ Gen.C20.xmlUses, u = "for-iter" ∨ u = "attr:parts") := by
+  refine ⟨?_, by decide⟩
+  cases a with
+  | score ps st => rfl
+  | node n => cases n <;> rfl
+  | seq b xs => cases b <;> rfl
+
+/-- **`Score.__init__` as written**: `self.parts = list(iter_parts(partlist))`, then the structure chain -/
+theorem score_ctor_generated (a : ScoreArg) :
+    interpCtor Gen.C20.scoreCtorParts Gen.C20.scoreCtorStructure a = some (scoreCtor a) := by
+  cases a with
+  | score ps st => rfl
+  | node n => cases n <;> rfl
+  | seq b xs =>
+    have h := C20Heap.iterParts_seq b xs
+    cases b <;> simp only [interpCtor, scoreCtor, h] <;> rfl
+
+/-- **`ensure_notearray` as written** hands on what `notearrayParts` says, for every ScoreLike form: a Part itself, the
+    DIRECT children of a PartGroup, the flat list of a Score, a list only if it holds nothing but Parts; a tuple and
+    a list holding a group are rejected (ValueError) -/
+theorem notearray_dispatch_generated (a : ScoreArg) :
+    interpScore Gen.C20.notearrayDispatch a = some (notearrayParts a) := by
+  cases a with
+  | score ps st => rfl
+  | node n => cases n <;> rfl
+  | seq b xs => cases b <;> rfl
+
+/-- the interpreter tells variants apart: a head of `save_score_midi` that takes a Score's `part_structure`
+    (a token it does not know) is refused, and a chain without the Score branch sends a Score to the Iterable branch,
+    where `iter_parts(score)` has no meaning -/
+example :
+    interpScore [("Score", "attr:part_structure"), ("else", "raise")] (ScoreArg.score [0] [Node.part 0]) = none ∧
+    interpScore [("Part|PartGroup", "singleton"), ("Iterable", "self"), ("else", "raise")]
+      (ScoreArg.score [0] [Node.part 0]) = none := by decide
+
+-- ================================================================== array views
+
+/-- **`slice_notearray_by_time` as written** binds its result by ALLOCATION in both branches (`np.empty`,
+    indexing with an integer array) — it is the function `sliceByTime` the theorems of Props/C20Array.lean are about —
+    and every subscript-store of its body targets the result, none the argument -/
+theorem slice_steps_generated {α : Type} :
+    interpSlice (α := α) Gen.C20.sliceBind = some Model.ArrayView.sliceByTime ∧
+    (∀ w ∈ Gen.C20.sliceWrites, w = "result") := by
+  refine ⟨rfl, by decide⟩
+
+/-- the variants are told apart: a table that hands the argument itself on (C20-c) denotes the aliasing function,
+    and a basic slice is refused -/
+example :
+    interpSlice (α := Nat) [("empty-index", "np.empty"), ("else", "alias:arg")]
+      = some (Model.ArrayView.sliceGen .empty .alias) ∧
+    (interpSlice (α := Nat) [("empty-index", "np.empty"), ("else", "view:arg")]).isNone = true := ⟨rfl, rfl⟩
+
+-- ================================================================== container protocol
+
+/-- **the container methods as written**: `__getitem__`, `__setitem__`, `__iter__` and `__len__` of `Score` all
+    delegate to `self.parts`, those of `Performance` to `self.performedparts` (one list each — the premise of
+    Model/IterProto.lean; `__iter__` hands out the list's own iterator, so no cursor lives on the container), and
+    neither class defines `__contains__` / `__reversed__` / `__delitem__` / `index` / `count` / `__getattr__`
+    (`in` and `reversed()` fall back to the sequence protocol, as Props/C20Seq.lean assumes) -/
+theorem protocol_delegates_generated :
+    delegatesTo "parts" Gen.C20.scoreProtocol = true ∧
+    delegatesTo "performedparts" Gen.C20.performanceProtocol = true ∧
+    Gen.C20.scoreProtocolExtra = [] ∧ Gen.C20.performanceProtocolExtra = [] := by decide
+
+/-- the seeded variant C20-d (`Score.__iter__` walks `part_structure`) is a body the reader does not accept -/
+example :
+    delegatesTo "parts" [("__getitem__", "getitem:parts"), ("__setitem__", "setitem:parts"), ("__iter__", "?"),
+      ("__len__", "len:parts")] = false := by decide
+
+-- ================================================================== composed: the LIVE tables carry the property
+
+/-- **end to end, score side**: interpreting the dispatch the live source contains, `save_score_midi` and
+    `save_musicxml` visit exactly the parts the argument stands for (`flat`: a Score's own list, otherwise the
+    depth-first walk), each once and in order, for EVERY ScoreLike form; and what `ensure_notearray` hands on walks to
+    the same list whenever it accepts the form -/
+theorem live_exporters_agree (a : ScoreArg) :
+    (interpScore Gen.C20.scoreMidiDispatch a).map (Option.map iterNodes) = some (some (flat a)) ∧
+    (interpXml Gen.C20.xmlHead a).map (Option.map (·.1)) = some (some (flat a)) ∧
+    (∀ ns, interpScore Gen.C20.notearrayDispatch a = some (some ns) → iterNodes ns = flat a) := by
+  obtain ⟨hx, hm, hn⟩ := C20Forms.exporters_agree a
+  refine ⟨?_, ?_, ?_⟩
+  · rw [score_midi_dispatch_generated, hm]
+  · rw [(xml_head_generated a).1]
+    simpa using hx
+  · intro ns h
+    rw [notearray_dispatch_generated] at h
+    exact hn ns (Option.some.inj h)
+
+/-- **end to end, array views**: whatever function the live binding table of `slice_notearray_by_time` denotes, a
+    call leaves the argument array as it was and returns an array that is not the argument -/
+theorem live_slice_frame {α : Type}
+    (f : (α → Bool) → (α → Bool) → (α → α) → (α → α) → Bool → Model.ArrayView.Bufs α → Nat →
+      Option (Model.ArrayView.Bufs α × Nat))
+    (hf : interpSlice Gen.C20.sliceBind = some f)
+    (act early : α → Bool) (setAll clipDur : α → α) (clip : Bool) (bufs : Model.ArrayView.Bufs α) (a : Nat)
+    (res : Model.ArrayView.Bufs α × Nat) (h : f act early setAll clipDur clip bufs a = some res) :
+    res.1[a]? = bufs[a]? ∧ res.2 ≠ a := by
+  have e : f = Model.ArrayView.sliceByTime := by
+    have := (slice_steps_generated (α := α)).1
+    rw [hf] at this
+    exact Option.some.inj this
+  subst e
+  exact ⟨(C20Array.slice_frame act early setAll clipDur clip bufs a res h).2,
+         (C20Array.slice_fresh act early setAll clipDur clip bufs a res h).2.1⟩
 
 end C20Gen
